@@ -214,7 +214,7 @@ func (c *converter) Continue() error {
 }
 
 func (c *converter) Print(values []string) error {
-	c.addLine(fmt.Sprintf("echo \"%s\"", strings.Join(values, " ")))
+	c.addLine(fmt.Sprintf("printf '%%s\\n' \"%s\"", strings.Join(values, " "))) // echo would swallow values like -n or -e.
 	return nil
 }
 
@@ -225,7 +225,7 @@ func (c *converter) Panic(value string) error {
 }
 
 func (c *converter) WriteFile(path string, content string, append string) error {
-	c.addLine(fmt.Sprintf(`if [ "%s" -eq "%s" ]; then echo "%s" >> "%s"; else echo "%s" > "%s"; fi`, append, transpiler.BoolToString(true), content, path, content, path))
+	c.addLine(fmt.Sprintf(`if [ "%s" -eq "%s" ]; then printf '%%s\n' "%s" >> "%s"; else printf '%%s\n' "%s" > "%s"; fi`, append, transpiler.BoolToString(true), content, path, content, path))
 	return nil
 }
 
